@@ -277,6 +277,17 @@ def gen(rng, tier):
             for _j in range(10):
                 cases.append({'kind': 'kcv', 'key': bytes(rng.randrange(256) for _ in range(ks)).hex(), 'n': rng.choice([None, 4, 6, 6, 8, 16])})
         # ---- outside the property: correspondence with the model only
+        # two legitimate requests whose arguments read the same when simply strung together (PAN N, index c, PIN dXXXX and
+        # PAN N+c, index d, PIN XXXX; a 17-digit PAN and an 18-digit one ...): the second must not get the first one's answer
+        for _ in range(12):
+            key = rkey(rng, rng.choice([8, 16, 24]))
+            n16, c, d = rdigits(rng, 16), rng.randrange(10), rng.randrange(10)
+            p4 = rdigits(rng, 4)
+            a = {'pin': str(d) + p4, 'pan': n16, 'kidx': c}
+            b = {'pin': p4, 'pan': n16 + str(c), 'kidx': d}
+            for first, second in ((a, b), (b, a)):
+                for via in ('func', 'iso0'):
+                    cases.append(dict({'kind': 'pvv', 'via': via, 'key': key, 'warm': [first]}, **second))
         good = rkey(rng, 16)
         for via in vias[:3]:
             for pin, pan, kidx, key in (
@@ -334,6 +345,11 @@ def impl(case):
         return kat_impl(case)
     if k == 'pvv':
         from cardutil import pinblock
+        for w in case.get('warm', ()):          # earlier calls in the same process
+            try:
+                pvv_call(dict(case, **w))()
+            except Exception:
+                pass
         r = {'pvv': outcome(pvv_call(case), hs)}
         if hasattr(pinblock, '_get_tsp'):
             r['tsp'] = outcome(lambda: pinblock._get_tsp(case['pan'], case['kidx'], case['pin']), hs)
